@@ -16,7 +16,7 @@ ap.add_argument('--verif', default='/verif', help='verif tree whose harness/regr
 ap.add_argument('mutants', nargs='+')
 a = ap.parse_args()
 props = a.props.split(',')
-root = '/tmp/pvlab'
+root = f'/tmp/pvlab-{os.getpid()}'
 os.makedirs(root, exist_ok=True)
 q = queue.Queue()
 for m in a.mutants: q.put(os.path.abspath(m))
